@@ -236,7 +236,7 @@ func drawX(t *rapid.T, fam string, label string) float64 {
 var scalarFamilies = []string{"normal", "exponential", "poisson", "geometric", "negative binomial", "categorical"}
 
 func drawCase(t *rapid.T) estCase {
-	kind := rapid.SampledFrom([]string{"scalar", "scalar", "scalar mixture", "vector hmm", "vector hmm", "matrix hmm", "vector mixture", "numeric", "scalarIid", "sparse logistic regression"}).Draw(t, "kind")
+	kind := rapid.SampledFrom([]string{"scalar", "scalar", "scalar mixture", "vector hmm", "vector hmm", "matrix hmm", "vector mixture", "numeric", "scalarIid", "sparse logistic regression", "vector normal"}).Draw(t, "kind")
 	a := rapid.Float64Range(-2, 2).Draw(t, "a")
 	b := rapid.Float64Range(0, 3).Draw(t, "b")
 	minusInf := math.Inf(-1)
@@ -274,6 +274,61 @@ func drawCase(t *rapid.T) estCase {
 				}
 				err = ve.EstimateOnData(xs, g, pool)
 				return result{params: vec(ve.GetParameters()), err: errString(err)}
+			}}
+	case "vector normal":
+		// pooled vector normal estimator: the per-worker accumulators are merged at the end; workers
+		// without weight (more threads than chunks, blocks of weight-zero observations) sit between
+		// busy ones (seed C17-6). d+1 affinely independent anchors with full weight keep the
+		// covariance well conditioned, so both runs succeed or fail together.
+		d := rapid.IntRange(1, 3).Draw(t, "dim")
+		n := rapid.IntRange(0, 40).Draw(t, "n")
+		zeroBlocks := rapid.Bool().Draw(t, "zeroBlocks")
+		var rows [][]float64
+		var gamma []float64
+		for i := 0; i <= d; i++ {
+			r := make([]float64, d)
+			if i > 0 {
+				r[i-1] = 4
+			}
+			rows = append(rows, r)
+			gamma = append(gamma, 0)
+		}
+		for i := 0; i < n; i++ {
+			r := make([]float64, d)
+			for j := range r {
+				r[j] = rapid.Float64Range(-3, 3).Draw(t, "xv")
+			}
+			g := rapid.Float64Range(-4, 0).Draw(t, "gv")
+			if zeroBlocks && rapid.IntRange(0, 2).Draw(t, "zero") > 0 {
+				g = minusInf
+			}
+			// anchors are spread over the sequence
+			k := rapid.IntRange(0, len(rows)).Draw(t, "pos")
+			rows = append(rows[:k], append([][]float64{r}, rows[k:]...)...)
+			gamma = append(gamma[:k], append([]float64{g}, gamma[k:]...)...)
+		}
+		weighted := zeroBlocks || rapid.Bool().Draw(t, "weightedv")
+		return estCase{kind: kind, jobs: len(rows), desc: fmt.Sprintf("vector normal dim=%d x=%v gamma=%v weighted=%v", d, rows, gamma, weighted),
+			run: func(pool threadpool.ThreadPool, y *yieldTable) result {
+				mu := make([]float64, d)
+				si := make([]float64, d*d)
+				for i := 0; i < d; i++ {
+					si[i*d+i] = 1
+				}
+				est, err := vectorEstimator.NewNormalEstimator(mu, si, 0)
+				if err != nil {
+					return result{err: err.Error()}
+				}
+				var xs []ConstVector
+				for _, r := range rows {
+					xs = append(xs, yieldVector{NewDenseFloat64Vector(r), y})
+				}
+				var g ConstVector
+				if weighted {
+					g = NewDenseFloat64Vector(gamma)
+				}
+				err = est.EstimateOnData(xs, g, pool)
+				return result{params: vec(est.GetParameters()), err: errString(err)}
 			}}
 	case "sparse logistic regression":
 		n := rapid.IntRange(6, 30).Draw(t, "n")
